@@ -39,6 +39,8 @@ func main() {
 		os.Exit(cmdMutants(os.Args[2:]))
 	case "seeded":
 		os.Exit(cmdSeeded(os.Args[2:]))
+	case "benign":
+		os.Exit(cmdBenign(os.Args[2:]))
 	case "list":
 		used := map[string]bool{}
 		for _, id := range sortedKeys(properties) {
@@ -75,8 +77,21 @@ func cmdRun(args []string) int {
 	repo := fs.String("repo", "/repo", "")
 	verbose := fs.Bool("v", false, "print ok obligations too")
 	tests := fs.Bool("tests", false, "load test packages too")
+	patch := fs.String("patch", "", "apply this unified diff through the overlay first (triage of a change)")
 	fs.Parse(args)
-	p, err := load(loadOpts{repo: *repo, tests: *tests})
+	var ov map[string][]byte
+	if *patch != "" {
+		b, err := os.ReadFile(*patch)
+		if err != nil {
+			fmt.Println("ERROR", err)
+			return 2
+		}
+		if ov, err = applyUnifiedDiff(*repo, string(b)); err != nil {
+			fmt.Println("ERROR", err)
+			return 2
+		}
+	}
+	p, err := load(loadOpts{repo: *repo, tests: *tests, overlay: ov})
 	if err != nil {
 		fmt.Println("ERROR", err)
 		return 2
@@ -226,10 +241,11 @@ func cmdCheck(args []string) int {
 
 	// thorough: cross-check call-graph based rules etc. is done inside rules through p; the mutant corpus
 	// is a measurement of the checker and is run by `zrntlint mutants` (its result is added to evidence, never to the verdict).
-	var mutantSummary, seededSummary map[string]any
+	var mutantSummary, seededSummary, benignSummary map[string]any
 	if *tier == "thorough" {
 		mutantSummary = runMutantsForRules(*repo, pr.Rules)
 		seededSummary = runSeededForProperty(*repo, *verif, *pid)
+		benignSummary = runBenignForThorough(*repo, pr.Rules)
 	}
 
 	knownSet := map[string]KnownFinding{}
@@ -331,6 +347,9 @@ func cmdCheck(args []string) int {
 	}
 	if seededSummary != nil {
 		cov["seeded_corpus"] = seededSummary
+	}
+	if benignSummary != nil {
+		cov["benign_corpus"] = benignSummary
 	}
 	assumptions := []string{
 		"Level 'other': what is decided is a set of structural necessary conditions of the property, exhaustively over the loaded program; the behavioural property itself is not proven.",
